@@ -167,6 +167,22 @@ func AbstractFloatArith(on bool) {}
 // arbitrary (value, ok|error) pair under gosym (strconv itself is trusted).
 func OpaqueParseFloat(on bool) {}
 
+// Concurrent switches gosym to scheduling mode (tier B): goroutines are
+// interleaved at visible operations (level 1: channels, select, locks,
+// WaitGroup, go; level 2: also sync/atomic), with at most `preemptions`
+// preemptive switches and `timers` firing time.After calls per path.
+// Natively a no-op (the Go scheduler runs the goroutines).
+func Concurrent(level, preemptions, timers int) {}
+
+// Yield is a visible operation of the harness itself: under gosym another
+// goroutine may run here; natively the goroutine pauses briefly so that an
+// overlap the code allows actually happens.
+func Yield() {
+	if os.Getenv("VERIF_REPLAY") != "" {
+		time.Sleep(30 * time.Millisecond)
+	}
+}
+
 // BoundedChans: under gosym (sequential mode: go statements run to
 // completion) a send on a full buffered channel is a deadlock from here on.
 func BoundedChans(on bool) {}
